@@ -21,7 +21,7 @@ RULE = ('one abstract well-formed chart is materialised 5 ways - add_state/add_t
         '(move_state / rename_state detour); in half of the runs every materialisation also gets two guard-twin transitions added in a drawn '
         'order and one removed again - and the same seeded script '
         'drives all of them in lock-step: macro steps (consumed event, transitions, exit/entry order per micro step, sent events), executed '
-        'code, context, the calls received by three listeners attached in the same order to each interpreter, or the exception class at each step must be identical. After the batch, the first runs are re-executed in fresh '
+        'code, context, the multiset of evaluated guards with the event each one saw, the calls received by three listeners attached in the same order to each interpreter, or the exception class at each step must be identical. After the batch, the first runs are re-executed in fresh '
         'interpreter processes under PYTHONHASHSEED in {0,1,2,3,4242} and the per-run digests of the complete event logs are compared. '
         'non-trivial = a run whose script produced >= 1 macro step with >= 2 exited or entered states while the declaration orders differ; '
         'distinct = distinct (chart, script, orders)')
@@ -37,6 +37,12 @@ def code(log):
     """executed code without the guard probes: the order in which guards are *evaluated* is not part
     of the property (guards are side-effect free), only what fires and in which order"""
     return [e for e in log if e[0] not in ('guard', 'tguard')]
+
+
+def guards(log):
+    """what the evaluated guards saw, as a multiset: which guards are evaluated in a step, and with which event, does not depend
+    on the order of declaration (within a source state every guard of a priority level is evaluated)"""
+    return sorted((e for e in log if e[0] in ('guard', 'tguard')), key=repr)
 
 
 def materialisations(sp, order):
@@ -85,7 +91,7 @@ def run(ch, tier, digest=None):
     rich = False
     for r in standard_ops(a, ch, tier, delays=True, hi=25 if tier == 'quick' else 60):
         res.stats['steps'] += 1
-        outs.append((sig(r.ms), r.exc_name(), sorted(r.post), r.ctx_after, code(r.log), list(heard)))
+        outs.append((sig(r.ms), r.exc_name(), sorted(r.post), r.ctx_after, code(r.log), list(heard), guards(r.log)))
         del heard[:]
         if r.ms is not None and (len(r.ms.exited_states) >= 2 or len(r.ms.entered_states) >= 2):
             rich = True
@@ -96,10 +102,11 @@ def run(ch, tier, digest=None):
         b = Sim(sp, statechart=sc)
         heard_b = listen(b)
         for i, r in enumerate(replay_script(b, script)):
-            got = (sig(r.ms), r.exc_name(), sorted(r.post), r.ctx_after, code(r.log), list(heard_b))
+            got = (sig(r.ms), r.exc_name(), sorted(r.post), r.ctx_after, code(r.log), list(heard_b), guards(r.log))
             del heard_b[:]
             if got != outs[i]:
-                fields = ['macro step', 'exception', 'configuration', 'context v', 'executed code', 'calls of the three attached listeners']
+                fields = ['macro step', 'exception', 'configuration', 'context v', 'executed code', 'calls of the three attached listeners',
+                          'multiset of evaluated guards and the event each saw']
                 f, x, y = [(f, x, y) for f, x, y in zip(fields, got, outs[i]) if x != y][0]
                 return res.fail('listener-order-not-reproducible' if f.startswith('calls of') else 'declaration-order-matters', 'step %d: %s of the "%s" materialisation is %r, of "api creation order" %r' % (
                     i, f, label, x, y), chart=sp.describe(), script=[repr(o)[:60] for o in script][:30],
